@@ -3,7 +3,7 @@ only to it."""
 from __future__ import annotations
 
 import ast
-from typing import Dict, List, Optional, Set, Tuple
+from typing import Any, Dict, List, Optional, Set, Tuple
 
 from ..cfg import CFG, Node, solve_forward
 from ..kinds import node_containing
@@ -118,30 +118,30 @@ def run(ctx: Ctx) -> None:
     # ---------------------------------------------------------------- R11.2
     ctx.rule("R11.2", "parse(): pending doc text reset after every dispatch except for attribute-introducing tokens whose handlers ignore it", minimum=4)
     parse = pm.fn("parse")
-    keep = None
-    for st in walk_local(parse):
-        if isinstance(st, ast.Assign) and len(st.targets) == 1 and isinstance(st.targets[0], ast.Name) and st.targets[0].id == "_keep_doxygen":
-            try:
-                keep = set(ctx.repo.folder("parser", "CxxParser").ev(st.value))
-            except Unfoldable:
-                keep = None
     attr_start = set(ctx.repo.folder("parser", "CxxParser").get("_attribute_start_tokens"))
-    ctx.ob("R11.2", "parser:CxxParser.parse|_keep_doxygen is a set of attribute introducers", keep is not None and keep <= attr_start,
-           msg=f"_keep_doxygen = {sorted(keep) if keep is not None else '?'} contains token types that do not introduce an attribute ({sorted((keep or set()) - attr_start)}): a doc comment above such a construct leaks to the next declaration",
-           node=parse, mod=mod)
-    for k in sorted(keep or ()):
-        h = pm.dispatch.get(k)
-        ok = h is not None and h != "<lambda>"
+    walks = _dispatch_walks(ctx, pm)
+    kept = {t: [w for w in ws if not w[1]] for t, ws in walks.items()}
+    kept = {t: ws for t, ws in kept.items() if ws}
+    stray = sorted(t for t in kept if t != OTHER and t not in attr_start)
+    ctx.ob("R11.2", "parser:CxxParser.parse|_keep_doxygen is a set of attribute introducers", not stray,
+           msg=f"after the handlers of {stray} the loop continues with the pending doc text although these token types do not introduce an attribute: a doc comment above such a construct leaks to the next declaration",
+           node=parse, mod=mod, detail=f"{len(walks)} token classes walked; kept after {sorted(kept)}")
+    for k in sorted(t for t in kept if t != OTHER):
+        handlers = sorted({h for called, _ in kept[k] for h in called})
+        ok = bool(handlers) and "<lambda>" not in handlers and "_parse_declarations" not in handlers
         if ok:
-            hf = pm.fn(h)
-            uses = [x for x in walk_local(hf) if isinstance(x, ast.Name) and x.id == "doxygen" and isinstance(x.ctx, ast.Load)]
-            ok = not uses
+            for h in handlers:
+                hf = pm.fn(h)
+                params = [a_.arg for a_ in hf.args.args]
+                dparam = params[2] if len(params) > 2 else None
+                uses = [x for x in walk_local(hf) if isinstance(x, ast.Name) and x.id == dparam and isinstance(x.ctx, ast.Load)]
+                ok = ok and not uses
         ctx.ob("R11.2", f"parser:CxxParser.parse|handler of kept type {k} ignores doxygen", ok,
-               msg=f"the handler for {k} uses its doxygen argument although the pending text is kept for the next declaration (double attribution)", node=parse, mod=mod, nontrivial=False)
-    # structure of the loop: after fn(tok, doxygen): `if tok.type not in _keep_doxygen: doxygen = None`; after _parse_declarations: doxygen = None
-    cfg = pm.cfg("parse")
-    ok, why = _parse_loop_resets(pm, cfg)
-    ctx.ob("R11.2", "parser:CxxParser.parse|reset after dispatch", ok, msg=why, node=parse, mod=mod)
+               msg=f"for a token of type {k} the pending doc text is handed to {handlers or 'no dedicated handler'} and also kept for the next declaration (double attribution)", node=parse, mod=mod, nontrivial=False)
+    ok = OTHER not in kept and all(ws for ws in walks.values())
+    ctx.ob("R11.2", "parser:CxxParser.parse|reset after dispatch", ok,
+           msg="after the declarations parser the loop can continue with the old doc text pending: the comment is attributed to the next declaration as well" if OTHER in kept else
+               f"no complete path through one iteration of the loop for {sorted(t for t, ws in walks.items() if not ws)}", node=parse, mod=mod)
 
     # ---------------------------------------------------------------- R11.3
     ctx.rule("R11.3", "who may ask for doc text: get_doxygen in parse/_parse_enumerator_list; get_doxygen_after only under `doxygen is None` in the field and enumerator parsers", minimum=4)
@@ -414,100 +414,144 @@ def _reaches_without(cfg: CFG, start: Node, stops: List[Node]) -> bool:
     return False
 
 
-def _parse_loop_resets(pm: ParserModel, cfg: CFG) -> Tuple[bool, str]:
-    """After the dispatch call `fn(tok, doxygen)` the variable is rebound to None unless
-    `tok.type in _keep_doxygen`; after _parse_declarations it is always rebound to None."""
-    resets = [n for n in cfg.nodes if n.kind == "stmt" and isinstance(n.stmt, ast.Assign) and any(isinstance(t, ast.Name) and t.id == "doxygen" for t in n.stmt.targets)
-              and isinstance(n.stmt.value, ast.Constant) and n.stmt.value.value is None]
-    acq = [n for n in cfg.nodes if n.kind == "stmt" and isinstance(n.stmt, ast.Assign) and any(isinstance(t, ast.Name) and t.id == "doxygen" for t in n.stmt.targets) and isinstance(n.stmt.value, ast.Call)]
-    disp = []
-    decl = []
-    for n in cfg.nodes:
-        for c in n.calls():
-            if isinstance(c.func, ast.Name) and any(isinstance(a, ast.Name) and a.id == "doxygen" for a in c.args):
-                disp.append(n)
-            r = pm.resolve("parse", c)
-            if r == ("self", "_parse_declarations"):
-                decl.append(n)
-    merged = False
-    if len(disp) == 1 and not decl and acq:
-        # `fn = table.get(tok.type, <declarations parser>)`: one call serves both; the fallback runs for the token types
-        # that are not table keys, so "always reset after the fallback" holds iff no kept type is missing from the table
-        fn_parse = pm.fn("parse")
-        default_decl = False
-        for x in walk_local(fn_parse):
-            if isinstance(x, ast.Call) and isinstance(x.func, ast.Attribute) and x.func.attr == "get" and len(x.args) == 2:
-                d = x.args[1]
-                target = None
-                if isinstance(d, ast.Attribute) and isinstance(d.value, ast.Name) and d.value.id == "self":
-                    target = d.attr
-                elif isinstance(d, ast.Name):
-                    for y in walk_local(fn_parse):
-                        if isinstance(y, ast.Assign) and any(isinstance(t, ast.Name) and t.id == d.id for t in y.targets) and isinstance(y.value, ast.Attribute) and isinstance(y.value.value, ast.Name) and y.value.value.id == "self":
-                            target = y.value.attr
-                if target == "_parse_declarations":
-                    default_decl = True
-        keep = None
-        for x in walk_local(fn_parse):
-            if isinstance(x, (ast.Assign, ast.AnnAssign)) and any(isinstance(t, ast.Name) and t.id == "_keep_doxygen" for t in (x.targets if isinstance(x, ast.Assign) else [x.target])) and isinstance(x.value, (ast.Set, ast.Tuple, ast.List)):
-                keep = {e.value for e in x.value.elts if isinstance(e, ast.Constant)}
-        if not default_decl or keep is None:
-            return False, "dispatch / declaration call anchors in the parse loop vanished"
-        if not keep <= set(pm.dispatch):
-            return False, f"token types {sorted(keep - set(pm.dispatch))} keep the pending doc text but have no handler: the declaration parsed for them would leave its doc text pending"
-        merged = True
-        decl = disp
-    if len(disp) != 1 or len(decl) != 1 or not acq:
-        return False, "dispatch / declaration call anchors in the parse loop vanished"
-    loop_heads = [n for n in cfg.nodes if n.kind == "test" and n.loop is not None]
-    keep_tests = [n for n in cfg.nodes if n.kind == "test" and n.cond is not None and "_keep_doxygen" in norm(n.cond)]
-    # from the declaration call: every path to the next acquisition test passes a reset
+OTHER = "<any other token>"
+
+
+def _dispatch_walks(ctx: Ctx, pm: ParserModel) -> Dict[str, List[Tuple[Tuple[str, ...], bool]]]:
+    """One iteration of the top-level loop of parse(), walked for every token type that has a dedicated handler and for
+    "any other token": which handler(s) receive the pending doc text, and whether the pending text is reset before the
+    next iteration.  Tests on the token type, on the looked-up handler and on local constant sets are decided."""
     from ..booleval import UNKNOWN as _UNK, ev as _bev
-    # the variable holding the looked-up handler: falsy where the declarations parser is called, a function where it is dispatched
-    fn_var = None
-    for c in disp[0].calls():
-        if isinstance(c.func, ast.Name) and any(isinstance(a_, ast.Name) and a_.id == "doxygen" for a_ in c.args):
-            fn_var = c.func.id
-    for start, allow_keep in (((disp[0], True),) if merged else ((decl[0], False), (disp[0], True))):
-        env_fn = {fn_var: (None if (start is decl[0] and not merged) else "<handler>")} if fn_var else {}
+    from ..model import Unfoldable as _Unf
+    fn = pm.fn("parse")
+    cfg = pm.cfg("parse")
+    folder = ctx.repo.folder("parser", "CxxParser")
+    heads = [n for n in cfg.nodes if n.kind == "test" and isinstance(n.loop, ast.While)]
+    if len(heads) != 1:
+        raise AnalysisError("parse(): expected exactly one while loop")
+    head = heads[0]
+    inside = {id(x) for x in ast.walk(head.loop)}
+    fetch = [n for n in cfg.nodes if n.kind == "stmt" and isinstance(n.stmt, ast.Assign) and id(n.stmt) in inside and isinstance(n.stmt.value, ast.Call)
+             and pm.resolve("parse", n.stmt.value) in (("lex", "token_eof_ok"), ("lex", "token")) and len(n.stmt.targets) == 1 and isinstance(n.stmt.targets[0], ast.Name)]
+    if len(fetch) != 1:
+        raise AnalysisError("anchor vanished: the single token fetch of the top-level loop of parse()")
+    tokv = fetch[0].stmt.targets[0].id
+    getdox = [n for n in cfg.nodes if n.kind == "stmt" and isinstance(n.stmt, ast.Assign) and isinstance(n.stmt.value, ast.Call) and pm.resolve("parse", n.stmt.value) == ("lex", "get_doxygen")
+              and len(n.stmt.targets) == 1 and isinstance(n.stmt.targets[0], ast.Name)]
+    if not getdox:
+        raise AnalysisError("anchor vanished: the pending doc text of parse() (`<var> = self.lex.get_doxygen()`)")
+    doxv = getdox[0].stmt.targets[0].id
+    # the dispatch table and the local constants
+    table_vars = {t.id for st in walk_local(fn) if isinstance(st, (ast.Assign, ast.AnnAssign)) and getattr(st, "value", None) is pm.dispatch_node
+                  for t in (st.targets if isinstance(st, ast.Assign) else [st.target]) if isinstance(t, ast.Name)}
+    consts: Dict[str, Any] = {}
+    ndefs: Dict[str, int] = {}
+    for st in walk_local(fn):
+        if isinstance(st, (ast.Assign, ast.AnnAssign, ast.AugAssign, ast.For)):
+            for t in (st.targets if isinstance(st, ast.Assign) else [st.target]):
+                for x in ast.walk(t):
+                    if isinstance(x, ast.Name):
+                        ndefs[x.id] = ndefs.get(x.id, 0) + 1
+    for st in walk_local(fn):
+        if isinstance(st, ast.Assign) and len(st.targets) == 1 and isinstance(st.targets[0], ast.Name) and ndefs.get(st.targets[0].id) == 1 and id(st) not in inside:
+            try:
+                v = folder.ev(st.value)
+            except (_Unf, AnalysisError, KeyError, TypeError):
+                if isinstance(st.value, ast.Attribute) and isinstance(st.value.value, ast.Name) and st.value.value.id == "self":
+                    try:
+                        v = folder.get(st.value.attr)
+                    except Exception:
+                        continue
+                else:
+                    continue
+            if isinstance(v, (set, frozenset, tuple, list)) and all(isinstance(x, str) for x in v):
+                consts[st.targets[0].id] = frozenset(v)
+
+    def handler_of(e: ast.AST) -> Optional[str]:
+        ch = pm.chain("parse", e)
+        if ch and len(ch) == 2 and ch[0] == "self" and ch[1] in pm.methods:
+            return ch[1]
+        return None
+
+    out: Dict[str, List[Tuple[Tuple[str, ...], bool]]] = {}
+    for T in sorted(pm.dispatch) + [OTHER]:
+        results: List[Tuple[Tuple[str, ...], bool]] = []
+        env0: Dict[str, Any] = dict(consts)
+        env0[tokv] = "<token>"
+
+        def sym(e: ast.AST) -> Optional[str]:
+            if norm(e) == f"{tokv}.type":
+                return "@type"
+            return None
+
+        env0["@type"] = T
+        stack: List[Tuple[Node, Tuple[Tuple[str, Any], ...], Tuple[str, ...], bool]] = [(s_, tuple(sorted(env0.items(), key=lambda kv: kv[0])), (), False) for s_, lab in fetch[0].succ if lab != "exc"]
         seen = set()
-        st = [(s, False) for s, lab in start.succ if lab != "exc"]
-        while st:
-            x, kept = st.pop()
-            if (x.id, kept) in seen or x in resets:
+        while stack:
+            n, envt, called, reset = stack.pop()
+            if n is head:
+                results.append((called, reset))
                 continue
-            seen.add((x.id, kept))
-            if x in loop_heads or x is cfg.exit:
-                if not (allow_keep and kept):
-                    return False, f"after `{short(start.stmt)}` the loop can continue with the old doc text pending"
+            if n is cfg.exit or n is cfg.raise_exit or (n.stmt is not None and id(n.stmt) not in inside):
+                continue  # leaves the loop
+            key = (n.id, envt, called, reset)
+            if key in seen:
                 continue
-            decided = _bev(x.cond, dict(env_fn), lambda e_: None) if (x.kind == "test" and x.cond is not None and env_fn) else _UNK
-            for s, lab in x.succ:
+            seen.add(key)
+            env = dict(envt)
+            st = n.stmt
+            # calls that receive the pending text
+            if n.kind in ("stmt", "test"):
+                for c in n.calls():
+                    if not any(isinstance(a_, ast.Name) and a_.id == doxv for a_ in list(c.args) + [k_.value for k_ in c.keywords]):
+                        continue
+                    if isinstance(c.func, ast.Name) and isinstance(env.get(c.func.id), str) and env[c.func.id].startswith("handler:"):
+                        called = called + (env[c.func.id][8:],)
+                    else:
+                        h = handler_of(c.func)
+                        called = called + ((h or norm(c.func)),)
+            if n.kind == "stmt" and isinstance(st, ast.Assign) and len(st.targets) == 1 and isinstance(st.targets[0], ast.Name):
+                tv = st.targets[0].id
+                v = st.value
+                val: Any = _UNK
+                if isinstance(v, ast.Call) and isinstance(v.func, ast.Attribute) and v.func.attr == "get" and isinstance(v.func.value, ast.Name) and v.func.value.id in table_vars \
+                        and v.args and norm(v.args[0]) == f"{tokv}.type":
+                    if T in pm.dispatch:
+                        val = "handler:" + pm.dispatch[T]
+                    elif len(v.args) == 2:
+                        h = handler_of(v.args[1])
+                        val = ("handler:" + h) if h else _UNK
+                    else:
+                        val = None
+                elif isinstance(v, ast.Subscript) and isinstance(v.value, ast.Name) and v.value.id in table_vars and norm(v.slice) == f"{tokv}.type":
+                    if T in pm.dispatch:
+                        val = "handler:" + pm.dispatch[T]
+                    else:
+                        continue  # KeyError: this path is not taken by such a token
+                else:
+                    val = _bev(v, env, sym)
+                if tv == doxv:
+                    reset = isinstance(v, ast.Constant) and v.value is None
+                if val is _UNK:
+                    env.pop(tv, None)
+                else:
+                    env[tv] = val
+            decided: Any = _UNK
+            if n.kind == "test" and n.cond is not None:
+                cond = n.cond
+                # membership of the token type in the dispatch table itself
+                if isinstance(cond, ast.Compare) and len(cond.ops) == 1 and norm(cond.left) == f"{tokv}.type" and isinstance(cond.comparators[0], ast.Name) and cond.comparators[0].id in table_vars:
+                    decided = (T in pm.dispatch) == isinstance(cond.ops[0], ast.In)
+                else:
+                    decided = _bev(cond, env, sym)
+            envt2 = tuple(sorted(env.items(), key=lambda kv: kv[0]))
+            for s_, lab in n.succ:
                 if lab == "exc":
                     continue
                 if decided is not _UNK and lab in ("T", "F") and bool(decided) != (lab == "T"):
-                    continue  # not taken with this handler value
-                k = kept
-                if x in keep_tests:
-                    # on which edge is the token type one of the kept ones?
-                    if _membership_holds(x.cond, lab == "T"):
-                        k = True
-                st.append((s, k))
-    return True, ""
+                    continue
+                stack.append((s_, envt2, called, reset))
+        out[T] = results
+    return out
 
 
-def _membership_holds(cond: ast.AST, truth: bool) -> bool:
-    """does `cond == truth` imply `tok.type in _keep_doxygen`?"""
-    if isinstance(cond, ast.UnaryOp) and isinstance(cond.op, ast.Not):
-        return _membership_holds(cond.operand, not truth)
-    if isinstance(cond, ast.Compare) and len(cond.ops) == 1 and "_keep_doxygen" in norm(cond.comparators[0]):
-        if isinstance(cond.ops[0], ast.In):
-            return truth
-        if isinstance(cond.ops[0], ast.NotIn):
-            return not truth
-    if isinstance(cond, ast.BoolOp):
-        conj = isinstance(cond.op, ast.And)
-        if conj == truth:
-            return any(_membership_holds(v, truth) for v in cond.values)
-        return all(_membership_holds(v, truth) for v in cond.values)
-    return False
